@@ -1,0 +1,14 @@
+//go:build verif
+
+package ssh
+
+// Contracts for property C36: the ssh / scp command constructors hand the
+// argument vector they were given to exec.CommandContext unchanged (same
+// slice), so what the transports assert about it is what the process gets.
+// Comment-only file, compiled only under the "verif" build tag.
+
+//@ func SSHCommand
+//@   at call exec.CommandContext assert[passthrough] arg2 == args
+
+//@ func SCPCommand
+//@   at call exec.CommandContext assert[passthrough] arg2 == args
